@@ -104,6 +104,11 @@ Fixpoint walk (g : cfg) (chk rb : seg -> snap -> bool) (sg : seg) (prev : snap)
                                (sg_assoc sg) (sg_dirtydel sg) (sg_seen sg) (sg_seen0 sg) (sg_flags sg)
                                (sg_blind sg) (sg_kinds_b sg) (sg_flags_b sg) (sg_switched sg))
                sn evs' snaps'
+      | RawAssoc a =>
+          walk g chk rb (mkseg (sg_before sg) (sg_allowed sg) (sg_kinds sg) (sg_modified sg) (sg_manual sg)
+                               (sg_assoc sg ++ [(as_tab a, as_key a)]) (sg_dirtydel sg) (sg_seen sg) (sg_seen0 sg)
+                               (sg_flags sg) (sg_blind sg) (sg_kinds_b sg) (sg_flags_b sg) (sg_switched sg))
+               sn evs' snaps'
       end
   | _, _ => false
   end.
